@@ -63,7 +63,7 @@ fn announced(env: &Env, hub: &String) -> Option<(String, Message)> {
     }
 }
 
-// HARNESS props=C05,C07 tier=quick profile=its shape="outbound transfer: amount full i128, data present/absent, token registered or not (either manager type), destination trusted or not, gas token arbitrary"
+// HARNESS props=C05,C07 tier=quick profile=its shape="outbound transfer: amount full i128, data absent or present (<=6 bytes), token registered or not (either manager type), destination trusted or not, gas token arbitrary"
 #[kani::proof]
 #[kani::stub(soroban_sdk::token::xc_TokenClient_transfer, spec_transfer)]
 #[kani::stub(soroban_sdk::token::xc_TokenClient_burn, spec_burn)]
@@ -79,11 +79,11 @@ fn c05_interchain_transfer() {
     let env = c.env.clone();
     let caller = any::address(4);
     let token_id = any::b32(1);
-    let dest_chain = any::string(2);
+    let dest_chain = any_chain_arg(&c);
     let dest_addr = any::bytes(2);
     let amount: i128 = kani::any();
     let has_data: bool = kani::any();
-    let d = any::bytes(2);
+    let d = any::bytes(6);
     let data = if has_data { Some(d) } else { None };
     let gas_token = Token { address: Address(3), amount: kani::any() };
     let trusted: bool = kani::any();
@@ -142,7 +142,7 @@ fn c18_deploy_remote(canonical: bool) -> u8 {
     let caller = any::address(4);
     let salt = any::b32(1);
     let canon_addr = Address(7);
-    let dest_chain = any::string(2);
+    let dest_chain = any_chain_arg(&c);
     let gas_token = Token { address: Address(3), amount: kani::any() };
     // the registry holds an entry under the id derived from (registrant, reg_salt): the caller's own pair or someone else's
     let registrant = any::address(4);
